@@ -96,6 +96,7 @@ Inductive fop :=
 | FDelete (x : uid)                                                  (* delete { ns.Doc{ id } } *)
 | FSyncPut (x : uid) (a : option text) (b : option text)             (* a pull wrote this row: new row or newer version *)
 | FSyncDel (x : uid)                                                 (* a pull applied a deletion record *)
+| FToggle (indexed : bool)                                           (* update_data_model: the entity declared with / without no_full_text_index *)
 | FCheck (ws : list text).                                           (* dump the rows, search every word *)
 
 (* events: a row was written by synchronisation; a new row took a storage slot that still has index
@@ -171,6 +172,9 @@ Definition fstep (st : fstate) (o : fop) : fstate * list Z * fevents :=
       end
   | FSyncDel x =>
       ({| rows := remove_row x (rows st); idx := idx st; nrow := nrow st; ntok := ntok st |}, [], fev_none)
+  (* Entity::update does not take enable_full_text from the new model version: the value of the first
+     version sticks, the index keeps being maintained and search keeps being answered *)
+  | FToggle _ => (st, [], fev_none)
   | FCheck ws => (st, enc_check st ws, fev_none)
   end.
 
